@@ -517,14 +517,20 @@ def build_table(rng, layout, feats, *, chains=1, icn="?", ocn="?"):
     if layout == "three-shared":
         return base + _shift(base, 2, _FAR) + _shift(base, 3, (-_FAR[0], _FAR[1], -_FAR[2]))
     # disjoint identities: the second model lives in another chain
-    other = "Z"
+    def disjoint(lines):
+        # every chain of the first model gets its own new name (two chains must not merge into one)
+        names = {}
+        for ln in lines:
+            k = names.setdefault(ln["ch"], len(names))
+            ln["ch"], ln["lch"] = "ZY"[k % 2], ("ZZ", "YY")[k % 2]
+        return lines
     if layout == "two-disjoint-far":
-        return base + _shift(base, 2, _FAR, ch=other, lch="ZZ")
+        return base + disjoint(_shift(base, 2, _FAR))
     if layout == "two-disjoint-near":
         if clashy:      # keep every atom with at most one close neighbour over the whole file
             base = build_model(rng, 1, [f if not (f.startswith("clash") or f.startswith("miss") or f == "occ-absent-clash")
                                         else "plain" for f in feats], chains=chains, icn=icn, ocn=ocn)
-        return base + _shift(base, 2, _NEAR, ch=other, lch="ZZ")
+        return base + disjoint(_shift(base, 2, _NEAR))
     raise lib.MachineryError("unknown layout " + layout)
 
 
